@@ -135,7 +135,9 @@ text.
 Hypotheses beyond the informal statement, each forced by the proof (see the report):
 `NamesOK σ` (no comma in field names, no attribute name starting with '-'), unique
 parameter names in the original values map (a Go map), the codec laws, canonical filter
-text, and a label whose JSON body does not start with '{'. -/
+text, and a label whose JSON body does not start with '{' (this last hypothesis is removed in
+Props/C08G.lean, `C08G_reparse`: `String()` rewrites such a body's first byte to its JSON
+escape, `rewriteBrace`, which the label decoder reads back). -/
 theorem C08_reparse : C08_reparse_statement NoEmptySelection := by
   intro σ path values fd u labelDec filterDec labelBody Canon hσ hn laws h hvnd hne hcanon hbrace
   obtain ⟨path', values', fd0, su, hpar, hsu, hu⟩ := newURLFrom_ok σ _ u h
@@ -163,15 +165,19 @@ theorem C08_reparse : C08_reparse_statement NoEmptySelection := by
     rw [hval]
     exact laws.filter_rt f (hcanon f hf)
   have hlabel : u.params.filter = none → u.params.filterLabel ≠ [] →
-      (c08_env labelBody u).labelBody ≠ [] ∧ (c08_env labelBody u).labelBody.head? ≠ some 123 ∧
+      rewriteBrace (c08_env labelBody u).labelBody ≠ [] ∧
+      (rewriteBrace (c08_env labelBody u).labelBody).head? ≠ some 123 ∧
       (c08_reparseFd labelDec filterDec (Spec.emittedValues u (c08_env labelBody u))).label =
         some u.params.filterLabel := by
     intro hf hl
     have hv := c08_emitted_filter u (c08_env labelBody u) (.inr hl)
-    refine ⟨laws.label_ne _ hl, hbrace hl, ?_⟩
+    -- under `hbrace` the rewrite of url.go leaves the body alone
+    have hrb : rewriteBrace (c08_env labelBody u).labelBody = labelBody u.params.filterLabel :=
+      rewriteBrace_of_head _ (hbrace hl)
+    refine ⟨by rw [hrb]; exact laws.label_ne _ hl, by rw [hrb]; exact hbrace hl, ?_⟩
     have hval : firstVal (((Spec.emittedValues u (c08_env labelBody u)).get? sFilter).getD []) =
         labelBody u.params.filterLabel := by
-      rw [hv]; simp [firstVal, Spec.emittedFilterValue, hf, hl, c08_env]
+      rw [hv]; simp [firstVal, Spec.emittedFilterValue, hf, hl, hrb]
     show labelDec (firstVal _) = _
     rw [hval]
     exact laws.label_rt _
@@ -400,17 +406,23 @@ theorem C08_dash_counterexample :
   refine ⟨_, _, (gs "/t", [(Spec.fieldsName [116], [[45, 120]]),
     (sSort, [[45, 120, 44, 105, 100]])]), h1, by decide, by decide, h2, by decide⟩
 
-/-- The label hypothesis: the filter value `{a` is read as the label `{a`
-(`json.Unmarshal` of `"{a"`), whose JSON body is `{a`; `String()` emits `filter=%7Ba`,
-and on re-parsing the value starts with '{', is taken for a filter object and rejected
-(`filterDec` fails on `{a`). -/
+/-- Why `String()` rewrites a leading `{` of the label body (url.go; `rewriteBrace` in the
+model). The filter value backslash-u007ba is read as the label `{a` (`json.Unmarshal` of the
+quoted value), whose JSON body is `{a`; `String()` emits `filter=%5Cu007ba`. Had it emitted
+the body as it is (`filter=%7Ba`), the value would start with '{' on re-parsing, be taken for
+a filter object and be rejected (`filterDec` fails on `{a`), whatever the label decoder says.
+(Until work package W3 the model of `String()` took the already rewritten body as its
+parameter and this theorem was stated with the unrewritten one, as the reason for the
+hypothesis `hbrace` of `C08_reparse`; the re-parse theorems without that hypothesis are in
+Props/C08G.lean.) -/
 theorem C08_label_brace_counterexample :
     ∃ u, newURLFrom { types := [c08_tAs] }
         (some ([47, 97, 115], [(sFilter, [[92, 117, 48, 48, 55, 98, 97]])],
           { label := some [123, 97], filter := none })) = .ok u ∧
       u.params.filterLabel = [123, 97] ∧
-      u.string { labelBody := [123, 97] } = gs "/as?fields%5Bas%5D=x&filter=%7Ba&sort=x%2Cid" ∧
-      Spec.parseRaw (u.string { labelBody := [123, 97] }) =
+      u.string { labelBody := [123, 97] } =
+        gs "/as?fields%5Bas%5D=x&filter=%5Cu007ba&sort=x%2Cid" ∧
+      Spec.parseRaw (gs "/as?fields%5Bas%5D=x&filter=%7Ba&sort=x%2Cid") =
         some (gs "/as", [(Spec.fieldsName [97, 115], [[120]]), (sFilter, [[123, 97]]),
           (sSort, [[120, 44, 105, 100]])]) ∧
       ∀ l, newURLFrom { types := [c08_tAs] }
